@@ -60,8 +60,6 @@ def pbnorm(v):
 
 
 def drivable(b, m):
-    if m.get("stream"):
-        return False
     for side in ("payload", "result"):
         a = m.get(side)
         if a is None:
@@ -77,6 +75,9 @@ def plan(b, seed, per_valid, cap):
     for s in b.design["services"]:
         for m in s["methods"]:
             if not drivable(b, m):
+                continue
+            if m.get("stream"):
+                plan_stream(b, s, m, seed, per_valid, cap, cmds, meta)
                 continue
             pobj = m.get("payload") and b.schema.is_object(m["payload"])
             robj = m.get("result") and b.schema.is_object(m["result"])
@@ -104,6 +105,110 @@ def plan(b, seed, per_valid, cap):
                         cmds.append(dict(base, script={"result": mr}))
                         meta.append((s, m, "response", label, p, mr))
     return cmds, meta
+
+
+def plan_stream(b, s, m, seed, per_valid, cap, cmds, meta):
+    """streaming methods: the messages the client streams and the results the server streams, in order; then the
+    same exchange with ONE message (or one result) replaced by a boundary mutation"""
+    kind = m["stream"]
+    up, down = kind in ("payload", "both"), kind in ("result", "both")
+
+    def value(att, rng):
+        if att is None:
+            return None
+        return e2e.gen_object(b.schema, att, rng, "body", 0, {}) if b.schema.is_object(att) else e2e.gen_value(b.schema, att, rng, "body")
+    for k in range(max(2, per_valid // 2)):
+        rng = e2e.rng_for(seed, "c10s", b.index, s["name"], m["name"], k)
+        payload, msgs, results, result = None, [], [], None
+        if up:
+            msgs = [value(m["payload"], rng) for _ in range(rng.randint(0, 3))]
+        elif m.get("payload"):
+            payload = value(m["payload"], rng)
+            if payload is None:
+                continue
+        if down:
+            results = [value(m["result"], rng) for _ in range(rng.randint(0, 3))] if m.get("result") else []
+        elif m.get("result"):
+            result = value(m["result"], rng)
+            if result is None:
+                continue
+        if any(x is None for x in msgs + results):
+            continue
+        base = {"op": "gstream", "service": s["name"], "method": m["name"], "payload": payload, "messages": msgs, "script": {"results": results, "result": result}}
+        cmds.append(base)
+        meta.append((s, m, "stream", "valid", base, None))
+        if up and msgs and b.schema.is_object(m["payload"]):
+            j = rng.randrange(len(msgs))
+            for label, mv in c04.mutations(b.schema, m["payload"], msgs[j], {}, rng, max(2, cap // 3)):
+                c2 = dict(base, messages=msgs[:j] + [mv] + msgs[j + 1:])
+                cmds.append(c2)
+                meta.append((s, m, "stream-request", label, c2, (j, mv)))
+        if down and results and m.get("result") and b.schema.is_object(m["result"]):
+            j = rng.randrange(len(results))
+            for label, mv in c04.mutations(b.schema, m["result"], results[j], {}, rng, max(2, cap // 3)):
+                c2 = dict(base, script={"results": results[:j] + [mv] + results[j + 1:], "result": result})
+                cmds.append(c2)
+                meta.append((s, m, "stream-response", label, c2, (j, mv)))
+
+
+def judge_stream(b, s, m, side, label, cmd, bad, verdict, o):
+    """streamed messages arrive equal and in order; a message (result) that breaks a rule is not handed to the service
+    method (the caller): the stream ends with an error there"""
+    name = "%s.%s" % (s["name"], m["name"])
+    out = []
+    kind = re.sub(r"[+-]\d+(\.\d+)?", "", label)
+    msgs = [pbnorm(canon(x)) for x in cmd.get("messages") or []]
+    results = [pbnorm(canon(x)) for x in cmd["script"].get("results") or []]
+    got_up = [pbnorm(canon(x)) for x in o.get("server_streamed") or []]
+    got_down = [pbnorm(canon(x)) for x in o.get("client_streamed") or []]
+    up, down = m["stream"] in ("payload", "both"), m["stream"] in ("result", "both")
+    rejected = bool(verdict) and verdict.startswith("rejected")
+    names = verdict.split(" ")[2] if rejected else ""
+    if not o.get("server_called"):
+        return [("c10/stream/method-not-invoked", "%s: the streaming method was not invoked: %s" % (name, json.dumps(o.get("client_error"))[:200]))]
+    if side == "stream-request" and rejected:
+        j = bad[0]
+        if len(got_up) > j and got_up[j] == pbnorm(canon(bad[1])):
+            return [("c10/stream/invalid-message-reached-user-code/%s/%s" % (kind, names), "%s: streamed message %d violating %s was handed to the service method" % (name, j, names))]
+        for k in range(min(j, len(got_up))):
+            for sg, what in roundtrip_diffs(b, m["payload"], msgs[k], got_up[k], "request"):
+                out.append((sg if "truncated" in sg else "c10/stream/messages-before-the-invalid-one", "%s: streamed message %d (before the invalid one): %s" % (name, k, what)))
+        if len(got_up) < j:
+            out.append(("c10/stream/messages-before-the-invalid-one", "%s: only %d of the %d messages before the invalid one arrived" % (name, len(got_up), j)))
+        return out
+    if side == "stream-response" and rejected:
+        j = bad[0]
+        if len(got_down) > j and got_down[j] == pbnorm(canon(bad[1])):
+            return [("c10/stream/invalid-result-returned/%s/%s" % (kind, names), "%s: streamed result %d violating %s was returned to the caller" % (name, j, names))]
+        return out
+    if side != "stream":
+        # a mutation the specification accepts (e.g. an optional attribute left unset): the exchange must go through
+        if o.get("client_error") or o.get("recv_error"):
+            return [("c10/stream/valid-message-refused/%s" % kind, "%s: %s" % (name, (o.get("recv_error") or (o.get("client_error") or {}).get("message") or "")[:200]))]
+        return out
+    # everything valid: equal and in order
+    def seq(att, want, have, side2, sig):
+        if len(want) != len(have):
+            out.append((sig, "%s: %d messages streamed, %d received (%s / %s)" % (name, len(want), len(have), json.dumps(want)[:200], json.dumps(have)[:200])))
+            return
+        for k, (w, h) in enumerate(zip(want, have)):
+            if h == "<nil>":
+                h = None
+            for sg, what in roundtrip_diffs(b, att, w, h, side2):
+                out.append((sg if "truncated" in sg else sig, "%s: streamed message %d: %s" % (name, k, what)))
+    if up:
+        seq(m["payload"], msgs, got_up, "request", "c10/stream/request-messages")
+    if down and not o.get("client_error"):
+        seq(m["result"], results, got_down, "response", "c10/stream/response-messages")
+    if o.get("client_error") and not o.get("recv_error"):
+        out.append(("c10/stream/valid-exchange-failed", "%s: %s" % (name, (o["client_error"].get("message") or "")[:200])))
+    if not up and m.get("payload") is not None:
+        for sig, what in roundtrip_diffs(b, m["payload"], pbnorm(canon(cmd.get("payload"))), pbnorm(canon(o.get("server_payload"))), "request"):
+            out.append((sig, "%s: payload %s" % (name, what)))
+    if not down and m.get("result") is not None and not o.get("client_error"):
+        for sig, what in roundtrip_diffs(b, m["result"], pbnorm(canon(cmd["script"].get("result"))), pbnorm(canon(o.get("client_result"))), "response"):
+            out.append((sig, "%s: result %s" % (name, what)))
+    return out
 
 
 def roundtrip_diffs(b, att, sent, got, side):
@@ -135,7 +240,7 @@ def roundtrip_diffs(b, att, sent, got, side):
 def metadata_refused(m, p, o):
     """the known finding: a metadata value outside printable ASCII makes the transport fail the call"""
     g = o.get("grpc") or {}
-    if o.get("server_called") or "non-printable ASCII" not in (g.get("message") or ""):
+    if o.get("server_called") or "non-printable ASCII" not in (g.get("message") or "") + ((o.get("client_error") or {}).get("message") or ""):
         return None
     for mp in (m.get("grpc") or {}).get("metadata") or []:
         v = p.get(mp["attr"]) if isinstance(p, dict) else None
@@ -210,7 +315,7 @@ def run_roundtrip(c, n, per_valid, cap):
         "harness/cmd/miniprotoc stands in for protoc + protoc-gen-go + protoc-gen-go-grpc (Go structs with protoc-gen-go's field naming, optional scalars as pointers, "
         "oneof wrappers, classic service code); harness/e2ert/grpc.go replaces protobuf marshalling by a table of deep copies (empty repeated fields, maps and byte "
         "strings become absent, as on the protobuf wire); transport, metadata, status codes are the real google.golang.org/grpc",
-        "streaming methods and union values are generated and compiled but not driven; methods with non-object array/map payloads are not driven",
+        "union values are generated and compiled but not driven; methods with non-object array/map payloads are not driven; in a streaming exchange the client sends all its messages, closes its side and then reads (no interleaved schedules)",
     ]
     if not (install_protoc(c) and c.lake_build("drv_valid", what="tie")):
         return
@@ -244,10 +349,13 @@ def run_roundtrip(c, n, per_valid, cap):
             continue
         lines, keep = [], []
         for i, (s, m, side, label, p, res) in enumerate(meta):
-            if side == "both":
+            if side in ("both", "stream"):
                 continue
             try:
-                lines.append(c04.model_line(b, m["payload"] if side == "request" else m["result"], p if side == "request" else res, {}, True))
+                if side.startswith("stream-"):
+                    lines.append(c04.model_line(b, m["payload"] if side == "stream-request" else m["result"], res[1], {}, True))
+                else:
+                    lines.append(c04.model_line(b, m["payload"] if side == "request" else m["result"], p if side == "request" else res, {}, True))
                 keep.append(i)
             except c04.Skip as ex:
                 c.hist("skipped", str(ex)[:40])
@@ -275,6 +383,12 @@ def run_roundtrip(c, n, per_valid, cap):
             if md_refused:
                 c.hist("grpc-exchange", "metadata-refused")
                 fails = [md_refused]
+            elif side.startswith("stream"):
+                v = vmap.get(i)
+                if side != "stream" and (v is None or v == "bad-op"):
+                    continue
+                c.hist("grpc-exchange", "%s/%s:%s" % (side, m["stream"], (v or "valid").split(" ")[0]))
+                fails = judge_stream(b, s, m, side, label, p, res, v, o)
             elif side == "both":
                 c.hist("grpc-exchange", "valid")
                 fails = judge_valid(b, s, m, p, res, o)
